@@ -53,6 +53,36 @@ pub fn drive(args: &[String]) {
     // OpConstant of undeclared / non-numeric type (loadable)
     corpus.push((enc(&[SInst { op: 43, rt: Some(9), rid: Some(1), ops: vec![SOp::one("LiteralBit32", 5)] }]), "const-undeclared"));
     corpus.push((enc(&[SInst { op: 20, rt: None, rid: Some(9), ops: vec![] }, SInst { op: 43, rt: Some(9), rid: Some(1), ops: vec![SOp::one("LiteralBit32", 5)] }]), "const-bool"));
+    // OpSpecConstantOp embedding every opcode number with 0..5 operand words (sampled)
+    let mut opnums: Vec<u32> = g.insts.keys().cloned().collect();
+    opnums.extend([9u32, 65535, 0x0001_003d]);
+    for (j, op) in opnums.iter().enumerate() {
+        if j % 16 != (n % 16) && !matches!(*op, 43 | 50 | 52 | 251) { continue; }
+        for extra in [0usize, 2, 4, 5] {
+            let mut ws: Vec<u32> = HEADER.to_vec();
+            let mut body = vec![1u32, 2, *op];
+            for x in 0..extra { body.push(3 + x as u32); }
+            ws.push((((body.len() + 1) as u32) << 16) | 52);
+            ws.extend(body);
+            corpus.push((words_to_bytes(&ws), "specop"));
+        }
+    }
+    // every sequence of up to 4 structural instructions (function / end / label / terminator / block instruction / parameter)
+    {
+        let reps: Vec<SInst> = vec![
+            SInst { op: 54, rt: Some(1), rid: Some(2), ops: vec![SOp::one("FunctionControl", 0), SOp::one("IdRef", 3)] },
+            SInst { op: 56, rt: None, rid: None, ops: vec![] }, SInst { op: 248, rt: None, rid: Some(4), ops: vec![] },
+            SInst { op: 253, rt: None, rid: None, ops: vec![] }, SInst { op: 0, rt: None, rid: None, ops: vec![] },
+            SInst { op: 55, rt: Some(1), rid: Some(5), ops: vec![] }];
+        let nn = reps.len();
+        for len in 1..=4usize {
+            for code in 0..nn.pow(len as u32) {
+                let mut c = code; let mut seq = vec![];
+                for _ in 0..len { seq.push(reps[c % nn].clone()); c /= nn; }
+                corpus.push((enc(&seq), "structure"));
+            }
+        }
+    }
     for k in 0..n {
         let (insts, _) = random_loadable(&g, &mut rng, k % 2 == 0, 3);
         corpus.push((enc(&insts), "loadable"));
